@@ -43,6 +43,8 @@ def generate(rng, tier):
         cases.append({"k": "int", "n": N})
     for _ in range(20):
         cases.append({"k": "pair", "l": [rng.randrange(-5, 6) for _ in range(rng.randrange(0, 7))]})
+    cases.append({"k": "pair", "l": []})
+    cases.append({"k": "pair", "l": [0]})
     for regime in ("K0", "K1"):
         for _ in range(n * 4):
             recs = rand_records(rng, regime, nseg=rng.choice([1, 2, 3]), span=8,
@@ -114,6 +116,11 @@ def run(case):
         # the same through one-shot iterators (a generator, iter(list)): pairs must still be consecutive
         assert [list(p) for p in pairwise(iter(case["l"]))] == r, "pairwise(iter(l)) differs from pairwise(l)"
         assert [list(p) for p in pairwise(x for x in case["l"])] == r, "pairwise(generator) differs from pairwise(l)"
+        # items of any kind: None, falsy values, repeated values
+        for conv in (lambda v: None if v % 3 == 0 else v, lambda v: "" if v % 2 else 0, lambda v: (v,), lambda v: None):
+            items = [conv(v) for v in case["l"]]
+            assert list(pairwise(items)) == list(zip(items, items[1:])), "pairwise(%r) is not the consecutive pairs" % (items,)
+            assert list(pairwise(iter(items))) == list(zip(items, items[1:]))
         return {"obs": r}
     if k == "newtrack":
         tb = TB(case["regime"])
